@@ -753,4 +753,168 @@ theorem pawn_section_iff (p : Pos) (hv : ValidB p.b) (hep : EpEmpty p) (m : Mv) 
       · exact Or.inr (Or.inl h)
       · exact Or.inr (Or.inr ⟨h3, hcb.2 ⟨h1, h⟩⟩)
 
+/-! ## king block against the movement rules -/
+
+theorem castle_target (f t : Sq) (hf : f.val = 4 ∨ f.val = 60) (dx : Int) (hdx : dx = 2 ∨ dx = -2) :
+    ((dxy f t).2 = 0 ∧ (dxy f t).1 = dx) ↔ (t.val : Int) = f.val + dx := by
+  unfold dxy Sq.x Sq.y
+  have := t.isLt
+  simp only
+  omega
+
+theorem king_section_iff (p : Pos) (k : Sq) (hv : ValidB p.b) (hk : KingAt p.b p.wtm k) (m : Mv) :
+    (m ∈ addMovesByMask k (kingAttacks k &&& ~~~colorBB p.b p.wtm) ∨ m ∈ castleMoves p k) ↔
+      (pseudo p m = true ∧ kind p.b[m.f] = 1) := by
+  have hstep : ∀ (hfk : m.f = k), kind p.b[m.f] = 1 ∧ own p.wtm p.b[m.f] = true := by
+    intro hfk; subst hfk; rw [hk.1]; exact ⟨kind_king _, own_king _⟩
+  have hcastle : (m ∈ castleMoves p k) ↔
+      (m.f = k ∧ m.promo = 0 ∧
+        (((m.t.val : Int) = m.f.val + 2 ∧ m.f.val = (if p.wtm then 4 else 60) ∧ castleOk p true = true) ∨
+         ((m.t.val : Int) = m.f.val + -2 ∧ m.f.val = (if p.wtm then 4 else 60) ∧ castleOk p false = true))) := by
+    cases hw : p.wtm
+    · rw [hw] at hk
+      rw [mem_castle_black p hw k hv hk]
+      simp only [Bool.false_eq_true, if_false]
+      have h1 : ∀ t : Sq, t = sq 62 ↔ (t.val : Int) = 60 + 2 := fun t => by rw [Fin.ext_iff]; simp [sq]; omega
+      have h2 : ∀ t : Sq, t = sq 58 ↔ (t.val : Int) = 60 + -2 := fun t => by rw [Fin.ext_iff]; simp [sq]; omega
+      have h3 : ∀ t : Sq, t = sq 60 ↔ t.val = 60 := fun t => by rw [Fin.ext_iff]; exact Iff.rfl
+      simp only [h1, h2, h3]
+      constructor
+      · rintro ⟨a, b, (⟨c, d, e⟩ | ⟨c, d, e⟩)⟩
+        · exact ⟨a, b, Or.inl ⟨by omega, d, e⟩⟩
+        · exact ⟨a, b, Or.inr ⟨by omega, d, e⟩⟩
+      · rintro ⟨a, b, (⟨c, d, e⟩ | ⟨c, d, e⟩)⟩
+        · exact ⟨a, b, Or.inl ⟨by omega, d, e⟩⟩
+        · exact ⟨a, b, Or.inr ⟨by omega, d, e⟩⟩
+    · rw [hw] at hk
+      rw [mem_castle_white p hw k hv hk]
+      simp only [if_true]
+      have h1 : ∀ t : Sq, t = sq 6 ↔ (t.val : Int) = 4 + 2 := fun t => by rw [Fin.ext_iff]; simp [sq]; omega
+      have h2 : ∀ t : Sq, t = sq 2 ↔ (t.val : Int) = 4 + -2 := fun t => by rw [Fin.ext_iff]; simp [sq]; omega
+      have h3 : ∀ t : Sq, t = sq 4 ↔ t.val = 4 := fun t => by rw [Fin.ext_iff]; exact Iff.rfl
+      simp only [h1, h2, h3]
+      constructor
+      · rintro ⟨a, b, (⟨c, d, e⟩ | ⟨c, d, e⟩)⟩
+        · exact ⟨a, b, Or.inl ⟨by omega, d, e⟩⟩
+        · exact ⟨a, b, Or.inr ⟨by omega, d, e⟩⟩
+      · rintro ⟨a, b, (⟨c, d, e⟩ | ⟨c, d, e⟩)⟩
+        · exact ⟨a, b, Or.inl ⟨by omega, d, e⟩⟩
+        · exact ⟨a, b, Or.inr ⟨by omega, d, e⟩⟩
+  have hhome : ∀ (h : m.f.val = (if p.wtm then 4 else 60)), m.f.val = 4 ∨ m.f.val = 60 := by
+    intro h; cases hw : p.wtm <;> rw [hw] at h <;> simp at h <;> omega
+  -- the destination of a castling move is empty
+  have hdest : ∀ (short : Bool), castleOk p short = true → m.f.val = (if p.wtm then 4 else 60) →
+      (m.t.val : Int) = m.f.val + (if short then 2 else -2) → own p.wtm p.b[m.t] = false := by
+    intro short hco hf ht
+    have := (castleOk_iff p short).1 hco
+    simp only at this
+    obtain ⟨_, _, _, hsq⟩ := this
+    have htt := m.t.isLt
+    cases short
+    · simp only [Bool.false_eq_true, if_false] at hsq ht
+      rw [← hf] at hsq
+      rw [← getP_val p.b m.t (m.f.val - 2) (by omega), hsq.2.1]; exact own_zero _
+    · simp only [if_true] at hsq ht
+      rw [← hf] at hsq
+      rw [← getP_val p.b m.t (m.f.val + 2) (by omega), hsq.2.1]; exact own_zero _
+  rw [mem_kingStep, hcastle]
+  constructor
+  · rintro (⟨hfk, hpr, hg, ht⟩ | ⟨hfk, hpr, hc⟩)
+    · obtain ⟨h1, h2⟩ := hstep hfk
+      refine ⟨?_, h1⟩
+      rw [pseudo_king_iff p m h1]
+      rw [← hfk, kingGeom_iff'] at hg
+      exact ⟨h2, ht, hg.2, hpr, Or.inl hg.1⟩
+    · obtain ⟨h1, h2⟩ := hstep hfk
+      refine ⟨?_, h1⟩
+      rw [pseudo_king_iff p m h1]
+      rcases hc with ⟨c, d, e⟩ | ⟨c, d, e⟩
+      · refine ⟨h2, hdest true e d (by simpa using c), fun e' => by rw [e'] at c; omega, hpr, Or.inr (Or.inl ?_)⟩
+        obtain ⟨x, y⟩ := (castle_target m.f m.t (hhome d) 2 (Or.inl rfl)).2 c
+        exact ⟨x, y, d, e⟩
+      · refine ⟨h2, hdest false e d (by simpa using c), fun e' => by rw [e'] at c; omega, hpr, Or.inr (Or.inr ?_)⟩
+        obtain ⟨x, y⟩ := (castle_target m.f m.t (hhome d) (-2) (Or.inr rfl)).2 c
+        exact ⟨x, y, d, e⟩
+  · rintro ⟨hp, h1⟩
+    have hfk : m.f = k := hk.2 _ (king_of_kind _ _ (pseudo_own_f p m hp) h1)
+    rw [pseudo_king_iff p m h1] at hp
+    obtain ⟨_, ht, hne, hpr, hmv⟩ := hp
+    rcases hmv with h | ⟨a, b, c, d⟩ | ⟨a, b, c, d⟩
+    · left
+      refine ⟨hfk, hpr, ?_, ht⟩
+      rw [← hfk, kingGeom_iff']; exact ⟨h, hne⟩
+    · right
+      exact ⟨hfk, hpr, Or.inl ⟨(castle_target m.f m.t (hhome c) 2 (Or.inl rfl)).1 ⟨a, b⟩, c, d⟩⟩
+    · right
+      exact ⟨hfk, hpr, Or.inr ⟨(castle_target m.f m.t (hhome c) (-2) (Or.inr rfl)).1 ⟨a, b⟩, c, d⟩⟩
+
+/-! ## `pseudoLegalMoves` -/
+
+set_option maxRecDepth 100000 in
+theorem kind_of_own_fin : ∀ (w : Bool) (n : Fin 256), own w (UInt8.ofNat n.val) = true →
+    (kind (UInt8.ofNat n.val) = 1 ∨ kind (UInt8.ofNat n.val) = 2 ∨ kind (UInt8.ofNat n.val) = 3 ∨
+     kind (UInt8.ofNat n.val) = 4 ∨ kind (UInt8.ofNat n.val) = 5 ∨ kind (UInt8.ofNat n.val) = 6) := by
+  decide +kernel
+
+theorem kind_of_own (w : Bool) (p : Pc) (h : own w p = true) :
+    kind p = 1 ∨ kind p = 2 ∨ kind p = 3 ∨ kind p = 4 ∨ kind p = 5 ∨ kind p = 6 := by
+  have := kind_of_own_fin w ⟨p.toNat, p.toNat_lt⟩
+  simp only [UInt8.ofNat_toNat] at this
+  exact this h
+
+/-- well-formedness used by the generator theorems: piece codes 0..12, the mover's king on `k` and nowhere else,
+    the en-passant square (if any) empty -/
+structure GenWF (p : Pos) (k : Sq) : Prop where
+  valid : ValidB p.b
+  king : KingAt p.b p.wtm k
+  ep : EpEmpty p
+
+/-- **`MoveGen::pseudoLegalMoves` generates exactly the moves that obey the movement rules** -/
+theorem mem_pseudoLegalMoves (p : Pos) (k : Sq) (h : GenWF p k) (m : Mv) :
+    m ∈ pseudoLegalMoves p k ↔ pseudo p m = true := by
+  obtain ⟨hv, hk, hep⟩ := h
+  have sQ : m ∈ pieceMoves p.b p.wtm 2 (fun sq => rookAttacks sq (occBB p.b) ||| bishopAttacks sq (occBB p.b))
+      (fun _ => ~~~colorBB p.b p.wtm) ↔ (pseudo p m = true ∧ kind p.b[m.f] = 2) :=
+    section_iff p ⟨2, by decide⟩ (by decide) (by decide) _ (fun f t hk => attacks_queen p.b hv f t hk) m
+  have sR : m ∈ pieceMoves p.b p.wtm 3 (fun sq => rookAttacks sq (occBB p.b)) (fun _ => ~~~colorBB p.b p.wtm) ↔
+      (pseudo p m = true ∧ kind p.b[m.f] = 3) :=
+    section_iff p ⟨3, by decide⟩ (by decide) (by decide) _ (fun f t hk => attacks_rook p.b hv f t hk) m
+  have sB : m ∈ pieceMoves p.b p.wtm 4 (fun sq => bishopAttacks sq (occBB p.b)) (fun _ => ~~~colorBB p.b p.wtm) ↔
+      (pseudo p m = true ∧ kind p.b[m.f] = 4) :=
+    section_iff p ⟨4, by decide⟩ (by decide) (by decide) _ (fun f t hk => attacks_bishop p.b hv f t hk) m
+  have sN : m ∈ pieceMoves p.b p.wtm 5 knightAttacks (fun _ => ~~~colorBB p.b p.wtm) ↔
+      (pseudo p m = true ∧ kind p.b[m.f] = 5) :=
+    section_iff p ⟨5, by decide⟩ (by decide) (by decide) _ (fun f t hk => attacks_knight p.b f t hk) m
+  have sK := king_section_iff p k hv hk m
+  have sP := pawn_section_iff p hv hep m
+  unfold pseudoLegalMoves
+  simp only [List.mem_append]
+  constructor
+  · rintro ((((((h | h) | h) | h) | h) | h) | h)
+    · exact (sQ.1 h).1
+    · exact (sR.1 h).1
+    · exact (sB.1 h).1
+    · exact (sK.1 (Or.inl h)).1
+    · exact (sK.1 (Or.inr h)).1
+    · exact (sN.1 h).1
+    · exact (sP.1 h).1
+  · intro hp
+    rcases kind_of_own _ _ (pseudo_own_f p m hp) with h | h | h | h | h | h
+    · rcases sK.2 ⟨hp, h⟩ with h' | h'
+      · exact Or.inl (Or.inl (Or.inl (Or.inr h')))
+      · exact Or.inl (Or.inl (Or.inr h'))
+    · exact Or.inl (Or.inl (Or.inl (Or.inl (Or.inl (Or.inl (sQ.2 ⟨hp, h⟩))))))
+    · exact Or.inl (Or.inl (Or.inl (Or.inl (Or.inl (Or.inr (sR.2 ⟨hp, h⟩))))))
+    · exact Or.inl (Or.inl (Or.inl (Or.inl (Or.inr (sB.2 ⟨hp, h⟩)))))
+    · exact Or.inl (Or.inr (sN.2 ⟨hp, h⟩))
+    · exact Or.inr (sP.2 ⟨hp, h⟩)
+
+/-- the moves the engine treats as legal (`pseudoLegalMoves`, then `removeIllegal`) are exactly the legal moves -/
+theorem mem_legalMoves (p : Pos) (k : Sq) (h : GenWF p k) (m : Mv) : m ∈ legalMoves p k ↔ legalB p m = true := by
+  unfold legalMoves
+  rw [removeIllegal_eq p k h.valid h.king _ (fun m hm => (mem_pseudoLegalMoves p k h m).1 hm), List.mem_filter,
+    mem_pseudoLegalMoves p k h]
+  unfold legalB
+  simp only [Bool.and_eq_true]
+
 end Chess.Texel
